@@ -6,19 +6,29 @@
 // executes calls and reports facts.
 package main
 
-import "verif/sim"
+import (
+	"fmt"
+	"os"
+
+	"verif/sim"
+)
 
 func main() {
 	defer func() {
 		for _, d := range drivers {
 			d.stop()
 		}
+		if os.Getenv("CSIM_COST") != "" {
+			for op, ns := range opNanos {
+				fmt.Fprintf(os.Stderr, "csim cost: request %q: %d requests, %.1f s total, %.1f us each\n", op, opCount[op], float64(ns)/1e9, float64(ns)/1e3/float64(opCount[op]))
+			}
+		}
 	}()
 	sim.WorkerMain(sim.EngineSpec{
 		Name: "csim",
 		Props: map[string]sim.PropSpec{
 			"C03": {Run: runC03, Modes: []string{"any"}},
-			"C05": {Run: runC05, Modes: []string{"multi_split", "every_split", "multi_split"}},
+			"C05": {Run: runC05, Modes: []string{"multi_split", "every_split", "multi_split", "dst_minimum", "multi_split"}},
 			"C07": {Run: runC07, Modes: []string{"valid"}},
 		},
 	})
